@@ -13,7 +13,7 @@ From SP Require Import Logic.Formula.
 From SP Require Import Design.Flat Design.Layout Design.Sem.
 From SP Require Import Encode.Compile Encode.CodeSem Encode.Generic Encode.Blocks Encode.Runs
      Encode.GridLemmas Encode.LayoutF1 Encode.F1Kinds Encode.F1Cross Encode.F1Deriv Encode.F1Sem
-     Encode.F1CrossSem Encode.F1DerivSem.
+     Encode.F1CrossSem Encode.F1DerivSem Encode.F1InARow Encode.F1Sequential Encode.F1Excl.
 Import ListNotations.
 Close Scope Z_scope.
 Open Scope nat_scope.
@@ -34,6 +34,9 @@ Definition Pc (c : fconstraint) (s : asg) : Prop :=
   | FDerivation d deps _ => Pderiv fb d deps s
   | FAtMost k f l wb => Patmost fb k f l wb s
   | FExactlyK k f l wb => Pexactlyk fb k f l wb s
+  | FAtLeast k f l wb => Patleast fb k f l wb s
+  | FExactlyKInARow k f l wb => Pexactrow fb k f l wb s
+  | FSequential f => Psequential fb f s
   | FExclude f l => Pexclude fb f l s
   | FPin i f l wb => Ppin fb i f l wb s
   | _ => True
@@ -61,12 +64,15 @@ Proof.
   - exact (step_consistency fb HF1 HT fresh ct Hfr E).
   - exact (step_deriv fb HF1 HT _ _ _ Hin fresh ct Hfr E).
   - exact (step_atmost fb HF1 HT _ _ _ _ Hc fresh ct Hfr E).
+  - exact (step_atleast fb HF1 HT _ _ _ _ Hc fresh ct Hfr E).
   - exact (step_exactlyk fb HF1 HT _ _ _ _ Hc fresh ct Hfr E).
+  - exact (step_exactrow fb HF1 HT _ _ _ _ Hc fresh ct Hfr E).
   - exact (step_exclude fb HF1 HT _ _ Hc fresh ct Hfr E).
   - exact (step_pin fb HF1 HT _ _ _ _ Hc fresh ct Hfr E).
   - exact (step_nothing fresh ct Hfr E).
   - exact (step_nothing fresh ct Hfr E).
   - exact (step_nothing fresh ct Hfr E).
+  - exact (step_sequential fb HF1 HT _ Hc fresh ct Hfr E).
 Qed.
 
 Lemma GZ_vps : GZ = zn (variables_per_sample fb).
@@ -99,15 +105,17 @@ Lemma constraint_sem s q c :
     (Pc c s <-> forallb (constraint_ok (code_sem fb) q) (code_constraint fb c) = true) end.
 Proof.
   intros Ho Hin. pose proof (f1_constraints fb Facts c Hin) as Hc.
-  destruct c; try exact I; try (cbn [constraint_f1] in Hc; discriminate);
-    cbn [Pc code_constraint forallb]; rewrite ?andb_true_r.
-  - exact (atmost_sem fb HF1 HT s q _ _ _ _ Ho Hc).
-  - exact (exactlyk_sem fb HF1 HT s q _ _ _ _ Ho Hc).
-  - exact (exclude_sem fb HF1 HT s q _ _ Ho Hc).
-  - exact (pin_sem fb HF1 HT s q _ _ _ _ Ho Hc).
+  destruct c; try exact I; try (cbn [constraint_f1] in Hc; discriminate); cbn [Pc].
+  - cbn [code_constraint forallb]; rewrite andb_true_r. exact (atmost_sem fb HF1 HT s q _ _ _ _ Ho Hc).
+  - cbn [code_constraint forallb]; rewrite andb_true_r. exact (atleast_sem fb HF1 HT s q _ _ _ _ Ho Hc).
+  - cbn [code_constraint forallb]; rewrite andb_true_r. exact (exactlyk_sem fb HF1 HT s q _ _ _ _ Ho Hc).
+  - cbn [code_constraint forallb]; rewrite andb_true_r. exact (exactrow_sem fb HF1 HT s q _ _ _ _ Ho Hc).
+  - cbn [code_constraint forallb]; rewrite andb_true_r. exact (exclude_sem fb HF1 HT s q _ _ Ho Hc).
+  - cbn [code_constraint forallb]; rewrite andb_true_r. exact (pin_sem fb HF1 HT s q _ _ _ _ Ho Hc).
   - split; reflexivity.
   - split; reflexivity.
   - split; reflexivity.
+  - exact (sequential_sem fb HF1 HT s q _ Ho Hc).
 Qed.
 
 Theorem pall_valid s :
@@ -117,19 +125,29 @@ Proof.
   - intros H.
     assert (Ho : onehot fb s (decode fb s)).
     { apply (pcons_onehot fb). exact (H FConsistency (f1_has_consistency fb Facts)). }
+    assert (Hfo : forallb (fun p => factor_ok (code_sem fb) (decode fb s) (fst p) (snd p))
+                          (index_list (s_factors (code_sem fb))) = true).
+    { apply (factors_sem fb HF1 HT s _ Ho). intros d deps f Hin. exact (H _ Hin). }
+    assert (Hne : NoExcl fb s).
+    { apply (no_excluded_shown fb HF1 HT s (decode fb s) Ho); [|exact Hfo].
+      intros p Hp. exact (H _ (f1_exclude_backed fb Facts p Hp)). }
     exists (decode fb s). split; [exact Ho|]. unfold valid_b. rewrite !andb_true_iff. split; [split; [split|]|].
     + apply Nat.eqb_eq. rewrite sem_factors_length. exact (proj1 Ho).
-    + apply (factors_sem fb HF1 HT s _ Ho). intros d deps f Hin. exact (H _ Hin).
-    + cbn [code_sem s_crossings]. apply (crossings_sem fb HF1 HT s _ _ 0 Ho (f1_crossings fb Facts)).
+    + exact Hfo.
+    + cbn [code_sem s_crossings]. apply (crossings_sem fb HF1 HT s _ _ 0 Ho Hne (f1_crossings fb Facts)).
       destruct (f1_has_cross fb Facts) as [Hx|Hx]; [exact (H FCross Hx)|]. rewrite Hx. exact I.
     + cbn [code_sem s_constraints]. apply forallb_flat_map. intros c Hin.
       pose proof (constraint_sem s _ c Ho Hin) as K. specialize (H c Hin).
       destruct c; try reflexivity; try (apply K; exact H).
   - intros (q & Ho & Hv) c Hin. unfold valid_b in Hv. rewrite !andb_true_iff in Hv. destruct Hv as [[[_ Hfac] Hcr] Hcs].
     cbn [code_sem s_constraints] in Hcs. rewrite forallb_flat_map in Hcs.
+    assert (Hne : NoExcl fb s).
+    { apply (no_excluded_shown fb HF1 HT s q Ho); [|exact Hfac].
+      intros p Hp. pose proof (f1_exclude_backed fb Facts p Hp) as Hb.
+      apply (constraint_sem s q _ Ho Hb). exact (Hcs _ Hb). }
     pose proof (constraint_sem s q c Ho Hin) as K.
     destruct c; cbn [Pc]; try exact I; try (apply K; exact (Hcs _ Hin)).
-    + unfold Pcross. apply (crossings_sem fb HF1 HT s q _ 0 Ho (f1_crossings fb Facts)). exact Hcr.
+    + unfold Pcross. apply (crossings_sem fb HF1 HT s q _ 0 Ho Hne (f1_crossings fb Facts)). exact Hcr.
     + exact (onehot_pcons fb s q Ho).
     + exact (proj2 (factors_sem fb HF1 HT s q Ho) Hfac _ _ _ Hin).
 Qed.
